@@ -86,6 +86,7 @@ func runC01(e *Engine, r *Report) {
 		}
 		root := e.pkgTypes("dragonboat")
 		n := 0
+		coveredAll := map[string]bool{}
 		for _, fn := range e.ScopeFuncs() {
 			if fnPkg(fn) != root || !e.IsLive(fn) {
 				continue
@@ -101,16 +102,34 @@ func runC01(e *Engine, r *Report) {
 							uses = true
 						}
 					}
+				case *ssa.Return:
+					for _, rv := range x.Results {
+						if constV(cc)(rv) && rv.Type().String() == cc.Type().String() {
+							uses = true
+						}
+					}
+				case *ssa.Call:
+					for _, a := range x.Call.Args {
+						if constV(cc)(a) && a.Type().String() == cc.Type().String() {
+							uses = true
+						}
+					}
 				}
 				if !uses {
 					return
 				}
 				n++
-				r.check(allowed[fname(fn)], "WMC-completed", "requestCompleted produced in "+fname(fn), e.ipos(in),
-					"Completed is produced only where the entry was applied / the query was served", "a Completed result is produced outside the apply/served sites")
+				covered := map[string]bool{}
+				okRole := e.onlyCalledFrom(fn, allowed, covered, 3)
+				for k := range covered {
+					coveredAll[k] = true
+				}
+				r.check(okRole, "WMC-completed", "requestCompleted produced in "+fname(fn), e.ipos(in),
+					"Completed is produced only where the entry was applied / the query was served (or in a helper called only from there)", "a Completed result is produced outside the apply/served sites")
 			})
 		}
-		r.floor("WMC-completed", n, 5)
+		// every apply/served site still produces (or reaches a helper that produces) Completed
+		r.floor("WMC-completed", len(coveredAll), 5)
 		ruleCompletedNotRejected(e, r)
 	}
 	// ---- linearizable read: query only after a successful ReadIndex wait
